@@ -46,6 +46,9 @@ def gen_spec(cs):
         s += '.' + str(cs.pick([0, 0, 1, 1, 2, 3, 4, 5, 6, 10, 17, 20, 30]) if cs.bool(210) else cs.choice(400))
     if cs.bool(200):
         s += cs.pick(TYPES)
+    if cs.bool(5):
+        # a leading conversion, which `format()` never accepts (the region of C18-F7 for r/s/a/b)
+        s = '!' + cs.pick('rsabxR!') + s
     # character-level mutation so that malformed specs are reached too
     m = cs.choice(12)
     if m == 0 and s:
@@ -209,8 +212,12 @@ class C18(Property):
                 return None
         ex = self.excluded(case)
         if ex:
-            ctx.count('excluded[%s]' % ex)
-            return None
+            # the region of a listed finding: most of these cases are dropped (they would only re-state the finding), one in six is
+            # kept - it is tallied under the finding when it fails in the listed way, and anything else (a panic above all) is reported
+            if not cs.bool(42):
+                ctx.count('excluded[%s]' % ex)
+                return None
+            ctx.count('kept_inside_region[%s]' % ex)
         return case
 
     def pyvalue(self, case):
@@ -240,7 +247,10 @@ class C18(Property):
             return None
         value = self.pyvalue(case)
         exp = py_format(case['kind'], value, case['spec'])
-        r = sut.call('format_spec', spec=case['spec'], kind=case['kind'], value=case['value'])
+        # (every third spec goes in through the FromStr impl, the other public way to the same parser)
+        via = len(case['spec']) % 3 == 1
+        ctx.count('via_from_str' if via else 'via_parse')
+        r = sut.call('format_spec', spec=case['spec'], kind=case['kind'], value=case['value'], via_from_str=via)
         ctx.count('%s_%s' % (case['kind'], exp[0]))
         if 'panic' in r or 'crash' in r:
             return Failure('panic', case=case, reply=r, python=exp)
